@@ -28,7 +28,7 @@ MANIFEST = dict(
 def gen_script(rng):
     """a fault script: phases + user resets; returns (phases, resets[(t, label)])"""
     kind = rng.choice(["healthy", "blackout-start", "blackout-mid", "blackout-mid-long", "rferr-mid", "handshake-loss", "reset-steady",
-                       "reset-in-connect", "reset-in-discovery", "lossy-mid", "double-blackout"])
+                       "reset-in-connect", "reset-in-discovery", "lossy-mid", "double-blackout", "slow-handshake-then-blackout"])
     P, R = [], []
     if kind == "healthy":
         pass
@@ -46,6 +46,11 @@ def gen_script(rng):
         P = [(20, "healthy"), (rng.choice([60, 200]), f"lossy:{rng.choice([0.2, 0.5])}")]
     elif kind == "handshake-loss":
         P = [(0.45 + rng.choice([0.0, 0.2, 0.4]), "healthy"), (70, "blackout")]
+    elif kind == "slow-handshake-then-blackout":
+        # every ping is lost and the first transmissions of each handshake request are lost too, so that the not-responding
+        # threshold is crossed while the manager is still CONNECTING; the handshake completes all the same; the spa goes
+        # dark the moment the manager says CONNECTED
+        P = [("until:CONNECTED", f"noping+first:{rng.choice([7, 8, 9])}"), (rng.choice([300, 420]), "blackout")]
     elif kind == "reset-steady":
         R = [(rng.choice([10, 15.3, 22]), "steady")]
     elif kind == "reset-in-connect":
@@ -77,14 +82,27 @@ def run_script(kind, phases, resets, bound_s, yielding=False):
         def record():
             return {"st": str(m.spa_state).split(".")[-1], "descriptors": m._spa_descriptors is not None, "facade": m.facade is not None,
                     "spa": m._spa is not None, "pump": not pump.done()}
-        healthy_from = sum(d for d, _ in phases)
-        t_end = max([healthy_from] + [t for t, _ in resets]) + bound_s + 5
+        net.state_fn = lambda: str(m.spa_state).split(".")[-1]
         pending = sorted(resets)
         left_connected_at = None
         was_connected = False
-        while loop.time() < t_end:
+        dark = []               # [start, state at start, first time the state was not CONNECTED (or None), end (or None)]
+        prev_mode = "healthy"
+        while True:
             await asyncio.sleep(0.05)
             now = loop.time()
+            hf = net.healthy_from()
+            if now > 3000 or (hf is not None and now >= max([hf] + [t for t, _ in resets]) + bound_s + 5):
+                break
+            mode_now = net.mode()
+            st_now = str(m.spa_state).split(".")[-1]
+            if mode_now == "blackout" and prev_mode != "blackout":
+                dark.append([now, st_now, None, None])
+            if mode_now != "blackout" and prev_mode == "blackout" and dark:
+                dark[-1][3] = now
+            if dark and dark[-1][3] is None and dark[-1][2] is None and st_now != "CONNECTED":
+                dark[-1][2] = now
+            prev_mode = mode_now
             if pending and now >= pending[0][0]:
                 _, label = pending.pop(0)
                 in_connect = any(fn == "_connect" for fn, _ in stack_sig(pump))
@@ -96,6 +114,8 @@ def run_script(kind, phases, resets, bound_s, yielding=False):
                 was_connected = True
             elif was_connected and left_connected_at is None:
                 left_connected_at = now
+        healthy_from = net.healthy_from() or 0.0
+        res["dark"] = dark
         res["final"] = record()
         res["healthy_from"] = healthy_from
         res["t_end"] = loop.time()
@@ -168,7 +188,8 @@ def run(ctx):
     lines, impl = [], []
     nontrivial = set()
     scripts = []
-    base_kinds = ["blackout-start", "blackout-mid-long", "reset-in-connect", "rferr-mid", "handshake-loss", "reset-steady"]
+    base_kinds = ["blackout-start", "blackout-mid-long", "reset-in-connect", "rferr-mid", "handshake-loss", "reset-steady",
+                  "slow-handshake-then-blackout"]
     for i in range(n):
         k, P, R = gen_script(rng)
         scripts.append((k, P, R))
@@ -216,8 +237,17 @@ def run(ctx):
             if not res["mirror_ok"]:
                 ctx.violation("mirror-differs-after-recovery", inp, "facade values mirror the spa", "client block differs from the simulator block")
             ctx.cov["max_recovery_s"] = max(ctx.cov.get("max_recovery_s", 0), round((res["recovered_at"] or res["last_fault"]) - res["last_fault"], 1))
-        # unreachable reported in time
-        blk = [(sum(d for d, _ in P[:i]), d) for i, (d, mo) in enumerate(P) if mo == "blackout" and i > 0]
+        # unreachable reported in time: every blackout that begins while the manager says CONNECTED
+        for start, st0, left, end in res.get("dark", []):
+            if st0 != "CONNECTED" or k == "double-blackout":
+                continue
+            lasted = (end if end is not None else res["t_end"]) - start
+            if left is None and lasted > unreach_idle:
+                ctx.violation("unreachable-not-reported", inp, f"state leaves CONNECTED within {unreach_idle} s of a blackout",
+                              f"still CONNECTED {lasted:.0f} s into the blackout that began at t={start:.0f} s")
+            elif left is not None and left - start > unreach_idle + 1:
+                ctx.violation("unreachable-reported-late", inp, f"<= {unreach_idle} s", round(left - start, 1))
+        blk = [(sum(d for d, _ in P[:i]), d) for i, (d, mo) in enumerate(P) if mo == "blackout" and i > 0 and not any(isinstance(x, str) for x, _ in P)]
         for start, dur in blk:
             if dur > unreach_idle and res["left_connected_at"] is None and fin["st"] == "CONNECTED" and k != "double-blackout":
                 ctx.violation("unreachable-not-reported", inp, f"state leaves CONNECTED within {unreach_idle} s of a blackout", "never left CONNECTED")
